@@ -129,6 +129,7 @@ pub enum DiagnosticInfoMessage {
     MissingArgumentsOnRecord,
     RecordShouldHaveTwoTypeArguments,
     DuplicatedRestNonSerializable,
+    TupleRestMustBeLast,
     UniqueNonSerializable,
     ReadonlyNonSerializable,
     ThisTypeNonSerializable,
@@ -168,6 +169,9 @@ impl DiagnosticInfoMessage {
             }
             DiagnosticInfoMessage::PropertyNonSerializable => {
                 "This property cannot be extracted".to_string()
+            }
+            DiagnosticInfoMessage::TupleRestMustBeLast => {
+                "A rest element in the middle or at the start of a tuple is not supported".to_string()
             }
             DiagnosticInfoMessage::DuplicatedRestNonSerializable => {
                 "This rest parameter cannot be extracted".to_string()
